@@ -148,6 +148,8 @@ class VClock:
     def sleep(self, s):
         if s < 0:
             raise ValueError("sleep length must be non-negative")       # like the real time.sleep()
+        if s * 1e9 >= 2 ** 63:
+            raise OverflowError("timestamp too large to convert to C _PyTime_t")   # like the real time.sleep()
         self.sleeps.append(s)
         self.ns += int(round(s * 1e9))
 
